@@ -18,7 +18,7 @@ func (rt *runtime) cmplEvaluateNodeExpression(node nodeExpression) Value {
 		goruntime.Gosched()
 		select {
 		case value := <-rt.otto.Interrupt:
-			value()
+			rt.runInterrupt(value)
 		default:
 		}
 	}
